@@ -954,10 +954,6 @@ def unit_c18(ctx):
 
 # ------------------------------------------------------------------ wrappers, training loops, losses
 def unit_c12(ctx):
-    import optax
-    from flowjax.train import fit_to_data, fit_to_variational_target
-    from flowjax.train.losses import ElboLoss
-
     L = _L()
     rng, jnp, jax, eqx, B, D, W = ctx.rng, L["jnp"], L["jax"], L["eqx"], L["B"], L["D"], L["W"]
     u = ctx.unit("argcov-wrapper-arguments", "wrappers built from python scalars / bools, NumPy scalars and arrays, float32, integer dtype, keyword and positional Lambda arguments, "
@@ -988,8 +984,19 @@ def unit_c12(ctx):
             errs.append("unwrap is not idempotent / leaves a wrapper behind")
         if errs:
             _viol(ctx, u, "C12", "C12:unwrap-arguments", f"wrapper tree built with {case}: " + "; ".join(errs[:2]), dict(args=case))
-    # frozen leaves under the DEFAULT optimiser of both loops with a learning_rate in every type variant; the first Adam step moves every trainable leaf by learning_rate
-    uf = ctx.unit("argcov-frozen-default-optimizer", "fit_to_data / fit_to_variational_target with optimizer=None and learning_rate as python / NumPy / 0-d array / float32: NonTrainable leaves "
+    default_optimizer_unit(ctx, "C12")
+
+
+def default_optimizer_unit(ctx, prop):
+    """Both loops with optimizer=None and a learning_rate in every type variant (harness/c12.py / c16.py always pass an optimizer): the first Adam step moves every trainable
+    leaf by learning_rate, frozen and non-float leaves stay bit-identical, and learning_rate is ignored when an optimizer is given (as documented)."""
+    import optax
+    from flowjax.train import fit_to_data, fit_to_variational_target
+    from flowjax.train.losses import ElboLoss
+
+    L = _L()
+    rng, jnp, jax, eqx, B, D, W = ctx.rng, L["jnp"], L["jax"], L["eqx"], L["B"], L["D"], L["W"]
+    uf = ctx.unit("argcov-default-optimizer", "fit_to_data / fit_to_variational_target with optimizer=None and learning_rate as python / NumPy / 0-d array / float32: NonTrainable leaves "
                                                      "and non-float leaves bit-identical, every trainable leaf moved by learning_rate (first Adam step) - and not at all by learning_rate when an optimizer is given")
     lr_kinds = [FLT_KINDS[int(j)] for j in rng.permutation(6)]
     for rep in range(8):
@@ -1020,7 +1027,7 @@ def unit_c12(ctx):
         except Exception as ex:  # noqa: BLE001
             errs = [f"raised {type(ex).__name__}: {str(ex)[:120]}"]
         if errs:
-            _viol(ctx, uf, "C12", f"C12:frozen-default-optimizer:{which}", f"{which} loop with {dict((k, v) for k, v in case.items() if k != 'x')}: " + "; ".join(errs[:2]), dict(args=case))
+            _viol(ctx, uf, prop, f"{prop}:default-optimizer:{which}", f"{which} loop with {dict((k, v) for k, v in case.items() if k != 'x')}: " + "; ".join(errs[:2]), dict(args=case))
 
 
 def unit_c15(ctx):
@@ -1133,6 +1140,7 @@ def unit_c16(ctx):
                 errs = [f"raised {type(ex).__name__}: {str(ex)[:120]}"]
         if errs:
             _viol(ctx, u, "C16", f"C16:{case['loop']}", f"{case['loop']} with {case}: " + "; ".join(errs[:2]), dict(args=case))
+    default_optimizer_unit(ctx, "C16")
 
 
 def unit_c17(ctx):
